@@ -957,7 +957,492 @@ def tie_sup_dist_na(rng, n):
     return sum(len(a) + len(b) for (a, b), _ in exp), [(c, r, o) for (c, r), o in zip(exp, out) if r != Fraction(o)]
 
 
+# ----------------------------------------------------------------------------- C19: record body of zmap_ascii
+def tie_zmap_record(rng, n):
+    """ZMAP files of a few rows (valid and invalid clock readings, fractional years / seconds that int() truncates, 10 to 14
+    columns) read by the real zmap_ascii; every row is one evaluation of the generated record body"""
+    import os
+    import tempfile
+    from csep.utils import readers
+    drv, exp = Driver(), []
+    tmp = tempfile.mkdtemp(prefix="srctie_c19_")
+    for k in range(max(20, n // 4)):
+        ncol = rng.choice([10, 13, 14])
+        rows = []
+        for _ in range(rng.randint(1, 4)):
+            y, mo, d = rng.randint(1900, 2100), rng.randint(1, 12), rng.randint(1, 28)
+            hh, mi, ss = rng.randint(0, 23), rng.randint(0, 59), rng.randint(0, 59)
+            if rng.random() < 0.12:
+                mo, d, hh, ss = rng.choice([(13, d, hh, ss), (2, 30, hh, ss), (mo, d, 24, ss), (mo, d, hh, 60), (0, d, hh, ss)])
+            row = [round(rng.uniform(-180, 180), 3), round(rng.uniform(-90, 90), 3), y + rng.choice([0.0, 0.37, 0.999]), float(mo),
+                   float(d), round(rng.uniform(2, 8), 2), round(rng.uniform(0, 70), 1), float(hh), float(mi),
+                   ss + rng.choice([0.0, 0.5, 0.99])] + [0.0] * (ncol - 10)
+            rows.append(row)
+        path = os.path.join(tmp, f"z{k}.dat")
+        with open(path, "w") as fh:
+            for r in rows:
+                fh.write(" ".join(repr(float(v)) for v in r) + "\n")
+        try:
+            ev = readers.zmap_ascii(path)
+            res = [f"{e[0]}:{int(e[1])}:{frac(float(e[2]))}:{frac(float(e[3]))}:{frac(float(e[4]))}:{frac(float(e[5]))}" for e in ev]
+        except ValueError:
+            res = None
+        os.unlink(path)
+        for i, r in enumerate(rows):
+            drv.ask(f"src_zmap_record {i} {flist(r)}")
+        exp.append((rows, res))
+    os.rmdir(tmp)
+    out = drv.run()
+    bad, pos, total = [], 0, 0
+    for rows, res in exp:
+        got = out[pos:pos + len(rows)]
+        pos += len(rows)
+        total += len(rows)
+        if res is None:
+            if "ValueError" not in got:          # the file raises iff some record raises
+                bad.append((rows, "ValueError", got))
+        elif got != res:
+            bad.append((rows, res, got))
+    return total, bad
+
+
+def tie_reader_parse_datetime(rng, n):
+    """the time strings of csep-csv files (with / without fraction), and strings neither format accepts; the nested function
+    is reached through a one-line file read by the real csep_ascii"""
+    import os
+    import tempfile
+    from csep.utils import readers
+    from csep.core.exceptions import CSEPIOException
+    drv, exp = Driver(), []
+    tmp = tempfile.mkdtemp(prefix="srctie_c19p_")
+    path = os.path.join(tmp, "c.csv")
+    for t in _time_strings(rng, max(40, n // 3)):
+        t = t.replace(" ", "T", 1)
+        if "," in t:
+            continue
+        with open(path, "w") as fh:
+            fh.write(f"1.0,2.0,3.0,{t},5.0,0,e1\n")
+        try:
+            r = str(int(readers.csep_ascii(path)[0][1]))
+        except CSEPIOException:
+            r = "Exception"
+        exp.append((t, r))
+        drv.ask("src_reader_parse_datetime " + _codes(t))
+    os.unlink(path)
+    os.rmdir(tmp)
+    out = drv.run()
+    return len(exp), [(c, r, o) for (c, r), o in zip(exp, out) if r != o]
+
+
+def tie_horus_record(rng, n):
+    """HORUS files of a few records: ordinary clock readings, second 60.x / minute 60 / hour 24 (the carries), invalid dates"""
+    import os
+    import tempfile
+    from csep.utils import readers
+    drv, exp = Driver(), []
+    tmp = tempfile.mkdtemp(prefix="srctie_c19h_")
+    for k in range(max(20, n // 4)):
+        recs = []
+        for _ in range(rng.randint(1, 4)):
+            y, mo, d = rng.randint(1960, 2030), rng.randint(1, 12), rng.randint(1, 28)
+            hh, mi = rng.choice([rng.randint(0, 23), 24]), rng.choice([rng.randint(0, 59), 60])
+            sec = rng.choice([round(rng.uniform(0, 59.99), 2), 60.0, round(rng.uniform(60, 60.99), 2), float(rng.randint(0, 59))])
+            if rng.random() < 0.08:
+                mo, d = rng.choice([(13, d), (2, 30), (0, d)])
+            recs.append((y, mo, d, hh, mi, sec, round(rng.uniform(35, 47), 3), round(rng.uniform(6, 19), 3), round(rng.uniform(0, 40), 1),
+                         round(rng.uniform(3, 7), 2)))
+        path = os.path.join(tmp, f"h{k}.txt")
+        with open(path, "w") as fh:
+            fh.write("year month day hour minute second lat lon depth Mw\n")
+            for r in recs:
+                fh.write("\t".join([str(v) for v in r[:5]] + [repr(float(v)) for v in r[5:]]) + "\n")
+        try:
+            ev = readers.ingv_horus(path)
+            res = [f"{_us_of(e[0])}:{int(e[1])}:{frac(float(e[2]))}:{frac(float(e[3]))}:{frac(float(e[4]))}:{frac(float(e[5]))}" for e in ev]
+        except ValueError:
+            res = None
+        os.unlink(path)
+        for r in recs:
+            drv.ask(f"src_horus_record {ilist(r[:5])} {flist(r[5:])}")
+        exp.append((recs, res))
+    os.rmdir(tmp)
+    out = drv.run()
+    bad, pos, total = [], 0, 0
+    for recs, res in exp:
+        got = out[pos:pos + len(recs)]
+        pos += len(recs)
+        total += len(recs)
+        if res is None:
+            if "ValueError" not in got:
+                bad.append((recs, "ValueError", got))
+        elif got != res:
+            bad.append((recs, res, got))
+    return total, bad
+
+
+# ----------------------------------------------------------------------------- C15, round 4
+def _codes(t):
+    return ",".join(str(ord(c)) for c in t) if t else "-"
+
+
+def _time_strings(rng, n):
+    """canonical time strings (what str(datetime) / pyCSEP write), with and without fraction / offset / 'T', and broken ones"""
+    out = []
+    for _ in range(n):
+        us = rng.randint(_us_of(datetime.datetime(1000, 1, 1)), _us_of(datetime.datetime(9999, 1, 1)))
+        dt = EPOCH + datetime.timedelta(microseconds=us)
+        k = rng.random()
+        t = dt.strftime("%Y-%m-%d %H:%M:%S")
+        if k < 0.35:
+            digits = rng.randint(1, 6)
+            t += "." + ("%06d" % dt.microsecond)[:digits]
+        if rng.random() < 0.25:
+            t += rng.choice(["+00:00", "+02:00", "-05:30"])
+        if rng.random() < 0.08:
+            # (strings with one-digit fields, which CPython also accepts, are outside the prelude's strptime: canonical widths)
+            t = rng.choice([t + "x", t.replace("-", "/", 1), t.replace(" ", "T"), "2020-13-01 00:00:00", "2021-02-29 10:00:00",
+                            t[:10] + " 24:00:00"])
+        out.append(t)
+    return out
+
+
+DEFAULT_FMT = "%Y-%m-%d %H:%M:%S.%f"
+
+
+def tie_parse_string_format(rng, n):
+    from csep.utils import time_utils as tu
+    drv, exp = Driver(), []
+    for t in _time_strings(rng, n):
+        if len(t) < 6:
+            continue
+        exp.append((t, tu.parse_string_format(t).replace(" ", "_")))
+        drv.ask("src_parse_string_format " + _codes(t))
+    out = drv.run()
+    return len(exp), [(c, r, o) for (c, r), o in zip(exp, out) if r != o]
+
+
+def _tie_strptime(rng, n, epoch):
+    from csep.utils import time_utils as tu
+    drv, exp = Driver(), []
+    fmts = [DEFAULT_FMT] * 5 + ["%Y-%m-%d %H:%M:%S", "%Y-%m-%dT%H:%M:%S", "%Y-%m-%dT%H:%M:%S.%f", "%Y-%m-%d %H:%M:%S%z"]
+    for t in _time_strings(rng, n):
+        if len(t) < 6:
+            continue
+        f = rng.choice(fmts)
+        if f.startswith("%Y-%m-%dT"):
+            t = t.replace(" ", "T", 1)
+        try:
+            r = tu.strptime_to_utc_epoch(t, f) if epoch else _us_of(tu.strptime_to_utc_datetime(t, f))
+            r = str(int(r))
+        except ValueError:
+            r = "ValueError"
+        exp.append(((t, f), r))
+        drv.ask(f"src_strptime_to_utc_{'epoch' if epoch else 'datetime'} {_codes(t)} {_codes(f)}")
+    out = drv.run()
+    return len(exp), [(c, r, o) for (c, r), o in zip(exp, out) if r != o]
+
+
+def tie_strptime_to_utc_datetime(rng, n):
+    return _tie_strptime(rng, n, False)
+
+
+def tie_strptime_to_utc_epoch(rng, n):
+    return _tie_strptime(rng, n, True)
+
+
+def _td_us(td):
+    return (td.days * 86400 + td.seconds) * 10 ** 6 + td.microseconds
+
+
+def _tie_tu(rng, n, name, gen, call, show, arg):
+    drv, exp = Driver(), []
+    xs = [gen() for _ in range(n)]
+    r = []
+    for x in xs:
+        try:
+            r.append(show(call(x)))
+        except ValueError:
+            r.append("ValueError")
+    drv.ask(f"src_{name} " + arg(xs))
+    out = drv.run()[0].split(",")
+    return len(xs), [(x, a, b) for x, a, b in zip(xs, r, out) if a != b]
+
+
+def tie_millis_to_days(rng, n):
+    from csep.utils import time_utils as tu
+    return _tie_tu(rng, n, "millis_to_days", lambda: rng.choice([rng.randint(-10 ** 13, 10 ** 13), rng.randint(-10 ** 6, 10 ** 6), 86400000 * rng.randint(-99, 99)]),
+                   tu.millis_to_days, lambda v: frac(float(v)), ilist)
+
+
+def tie_days_to_millis_f(rng, n):
+    from csep.utils import time_utils as tu
+    return _tie_tu(rng, n, "days_to_millis_f", lambda: rng.choice([rng.uniform(0, 4e4), rng.uniform(-5, 5), round(rng.uniform(0, 99), 1)]),
+                   tu.days_to_millis, lambda v: frac(float(v)), flist)
+
+
+def tie_days_to_millis_i(rng, n):
+    from csep.utils import time_utils as tu
+    return _tie_tu(rng, n, "days_to_millis_i", lambda: rng.randint(-10 ** 6, 10 ** 6), tu.days_to_millis, lambda v: str(int(v)), ilist)
+
+
+def tie_timedelta_from_years(rng, n):
+    from csep.utils import time_utils as tu
+    return _tie_tu(rng, n, "timedelta_from_years",
+                   lambda: rng.choice([rng.uniform(0, 30), rng.uniform(-1, 1), rng.uniform(0, 1e-6), float(rng.randint(0, 50)), 0.5, 1 / 3]),
+                   tu.timedelta_from_years, lambda td: str(_td_us(td)), flist)
+
+
+def _dec_years(rng):
+    return rng.choice([rng.uniform(1900, 2100), rng.uniform(1, 9998), float(rng.randint(1900, 2100)),
+                       rng.randint(1900, 2100) + rng.choice([0.5, 0.25, 1 / 3, 0.999999999, 1e-9])])
+
+
+def tie_decimal_year_to_utc_datetime(rng, n):
+    from csep.utils import time_utils as tu
+    return _tie_tu(rng, n, "decimal_year_to_utc_datetime", lambda: _dec_years(rng), tu.decimal_year_to_utc_datetime,
+                   lambda dt: str(_us_of(dt)), flist)
+
+
+def tie_decimal_year_to_utc_epoch(rng, n):
+    from csep.utils import time_utils as tu
+    return _tie_tu(rng, n, "decimal_year_to_utc_epoch", lambda: _dec_years(rng), tu.decimal_year_to_utc_epoch, lambda v: str(int(v)), flist)
+
+
+# ----------------------------------------------------------------------------- C11: forecast arrays (exact layer)
+def _dyadic_rows(rng):
+    """an (N, M) array of dyadic rationals k/8 (float64 products and sums of a few of them are exact), N, M >= 1"""
+    n, m = rng.randint(1, 5), rng.randint(1, 4)
+    return [[rng.randint(0, 400) / 8.0 for _ in range(m)] for _ in range(n)]
+
+
+def _rows_txt(rows):
+    return ";".join(flist(r) for r in rows) if rows else "-"
+
+
+def _tie_c11_array(rng, n, name):
+    import numpy
+    from csep.core import forecasts as fc
+    drv, exp = Driver(), []
+    for _ in range(n):
+        rows = _dyadic_rows(rng)
+        a = numpy.array(rows, dtype=numpy.float64)
+        if name == "gds_data":
+            sc = rng.choice([1, 0.5, 2.0, 0.25, 3, rng.randint(0, 40) / 4.0])
+            r = fc.GriddedDataSet.data.fget(_Obj(_data=a, _scale=sc))
+            exp.append(((rows, sc), _rows_txt([[float(v) for v in row] for row in r])))
+            drv.ask(f"src_gds_data {_rows_txt(rows)} {frac(sc)}")
+        elif name == "gds_sum":
+            exp.append((rows, frac(float(fc.GriddedDataSet.sum(_Obj(data=a))))))
+            drv.ask(f"src_gds_sum {_rows_txt(rows)}")
+        elif name == "mgds_spatial_counts":
+            exp.append((rows, flist(float(v) for v in fc.MarkedGriddedDataSet.spatial_counts(_Obj(data=a)))))
+            drv.ask(f"src_mgds_spatial_counts {_rows_txt(rows)}")
+        else:
+            exp.append((rows, flist(float(v) for v in fc.MarkedGriddedDataSet.magnitude_counts(_Obj(data=a)))))
+            drv.ask(f"src_mgds_magnitude_counts {_rows_txt(rows)}")
+    out = drv.run()
+    return len(exp), [(c, r, o[:80]) for (c, r), o in zip(exp, out) if r != o]
+
+
+def tie_gds_data(rng, n):
+    return _tie_c11_array(rng, n, "gds_data")
+
+
+def tie_gds_sum(rng, n):
+    return _tie_c11_array(rng, n, "gds_sum")
+
+
+def tie_mgds_spatial_counts(rng, n):
+    return _tie_c11_array(rng, n, "mgds_spatial_counts")
+
+
+def tie_mgds_magnitude_counts(rng, n):
+    return _tie_c11_array(rng, n, "mgds_magnitude_counts")
+
+
+def tie_gds_scale(rng, n):
+    from csep.core import forecasts as fc
+    drv, exp = Driver(), []
+    for _ in range(n // 4):
+        v = rng.choice([1, 0.5, rng.uniform(0, 9), rng.randint(0, 7)])
+        o = _Obj(_scale=rng.uniform(0, 3))
+        r = fc.GriddedDataSet.scale(o, v)
+        exp.append((v, frac(float(r._scale)) if r is o else "not-self"))
+        drv.ask(f"src_gds_scale {frac(float(v))}")
+    out = drv.run()
+    return len(exp), [(c, r, o) for (c, r), o in zip(exp, out) if r != o]
+
+
+def tie_get_magnitude_index(rng, n):
+    import numpy
+    from csep.core import forecasts as fc
+    drv, exp, total = Driver(), [], 0
+    for g in _grids(rng, max(6, n // 8)):
+        if len(g) > 1:
+            a0, h = g[0], g[1] - g[0]
+            if h - abs(a0) * 2.0 ** -52 == 0 or not _finite(h):
+                continue
+        pts = _points(rng, g)
+        for mags in (pts, [p for p in pts if p >= g[0]][:8], []):
+            try:
+                with numpy.errstate(all="ignore"):
+                    r = ilist(fc.MarkedGriddedDataSet.get_magnitude_index(
+                        _Obj(magnitudes=numpy.array(g, dtype=numpy.float64)), numpy.array(mags, dtype=numpy.float64)))
+            except ValueError:
+                r = "ValueError"
+            exp.append((dict(edges=g, mags=mags), r))
+            drv.ask(f"src_get_magnitude_index {flist(mags)} {flist(g)}")
+            total += max(1, len(mags))
+    out = drv.run()
+    return total, [(c, r, o[:80]) for (c, r), o in zip(exp, out) if r != o]
+
+
+def _tie_get_rates(rng, n, with_data):
+    import numpy
+    from csep.core import forecasts as fc
+    drv, exp = Driver(), []
+    for _ in range(n):
+        rows, other = _dyadic_rows(rng), None
+        N, M = len(rows), len(rows[0])
+        k = rng.randint(0, 5)
+        lens = rng.choice([(k, k, k), (k, k, k), (k, k + 1, k + 1), (k + 1, k, k), (k, k + 1, k + 2)])
+        idx = [rng.randint(-N, N - 1) for _ in range(k)]      # negative indices wrap, as in numpy
+        idm = [rng.randint(-M, M - 1) for _ in range(k)]
+        o = _Obj(data=numpy.array(rows), get_index_of=lambda a, b, v=idx: numpy.array(v, dtype=numpy.int64),
+                 get_magnitude_index=lambda m, v=idm: numpy.array(v, dtype=numpy.int64))
+        kw = {}
+        if with_data:
+            other = [[rng.randint(0, 99) / 4.0 for _ in range(M)] for _ in range(N)]
+            kw["data"] = numpy.array(other)
+        try:
+            r = flist(float(v) for v in fc.GriddedForecast.get_rates(o, [0.0] * lens[0], [0.0] * lens[1], [0.0] * lens[2], **kw))
+        except RuntimeError:
+            r = "Exception"
+        exp.append((dict(rows=rows, other=other, idx=idx, idm=idm, lens=lens), r))
+        drv.ask(f"src_get_rates {lens[0]} {lens[1]} {lens[2]} {ilist(idx)} {ilist(idm)} {_rows_txt(rows)} "
+                f"{_rows_txt(other) if other else '-'}")
+    out = drv.run()
+    return len(exp), [(c, r, o[:80]) for (c, r), o in zip(exp, out) if r != o]
+
+
+def tie_get_rates(rng, n):
+    return _tie_get_rates(rng, n, False)
+
+
+def tie_get_rates_data(rng, n):
+    return _tie_get_rates(rng, n, True)
+
+
+def tie_target_event_rates(rng, n):
+    """a stub forecast carrying `data`, the period and the two lookups; dyadic rates and periods of 1, 2, 4, 8 days so that the
+    float divisions and sums are exact (the definition is at the exact layer)"""
+    import numpy
+    from csep.core import forecasts as fc
+    from csep.core.catalogs import CSEPCatalog
+    drv, exp = Driver(), []
+    for _ in range(n):
+        rows = _dyadic_rows(rng)
+        N, M = len(rows), len(rows[0])
+        k = rng.randint(0, 5)
+        idx = [rng.randint(0, N - 1) for _ in range(k)]
+        idm = [rng.randint(0, M - 1) for _ in range(k)]
+        days, scale = rng.choice([1, 2, 4, 8]), rng.random() < 0.5
+        st = datetime.datetime(2010, 1, 1)
+        cat = CSEPCatalog.__new__(CSEPCatalog)
+        cat.get_longitudes = lambda k=k: numpy.zeros(k)
+        cat.get_latitudes = lambda k=k: numpy.zeros(k)
+        cat.get_magnitudes = lambda k=k: numpy.zeros(k)
+        o = _Obj(data=numpy.array(rows), start_time=st, end_time=st + datetime.timedelta(days=days, hours=rng.randint(0, 23)),
+                 get_index_of=lambda a, b, v=idx: numpy.array(v, dtype=numpy.int64),
+                 get_magnitude_index=lambda m, v=idm: numpy.array(v, dtype=numpy.int64))
+        o.get_rates = lambda lons, lats, mags, data=None, o=o: fc.GriddedForecast.get_rates(o, lons, lats, mags, data=data)
+        r, tot = fc.GriddedForecast.target_event_rates(o, cat, scale=scale)
+        exp.append((dict(rows=rows, idx=idx, idm=idm, days=days, scale=scale), flist(float(v) for v in r) + ";" + frac(float(tot))))
+        drv.ask(f"src_target_event_rates {int(scale)} {days} {k} {ilist(idx)} {ilist(idm)} {_rows_txt(rows)}")
+    out = drv.run()
+    return len(exp), [(c, r, o[:80]) for (c, r), o in zip(exp, out) if r != o]
+
+
+def tie_load_ascii(rng, n):
+    """CSEP1 forecast files on small regular grids (cells x magnitudes in product order, cells possibly listed in a shuffled
+    order, flags 0 / 1, both column conventions), loaded by the real load_ascii"""
+    import os
+    import tempfile
+    import numpy
+    from csep.core import forecasts as fc
+    drv, exp = Driver(), []
+    tmp = tempfile.mkdtemp(prefix="srctie_c11_")
+    for k in range(max(10, n // 10)):
+        nx, ny, nm = rng.randint(1, 3), rng.randint(1, 3), rng.randint(1, 3)
+        dh = rng.choice([0.1, 0.5, 1.0])
+        x0, y0 = round(rng.uniform(-120, 120), 1), round(rng.uniform(-60, 60), 1)
+        cells = [(round(x0 + i * dh, 6), round(x0 + (i + 1) * dh, 6), round(y0 + j * dh, 6), round(y0 + (j + 1) * dh, 6))
+                 for i in range(nx) for j in range(ny)]
+        rng.shuffle(cells)
+        mags = [round(4.95 + 0.1 * m, 2) for m in range(nm)]
+        swap = rng.random() < 0.4
+        rows = []
+        for c in cells:
+            flag = float(rng.random() < 0.8)
+            for m in mags:
+                poly = (c[2], c[3], c[0], c[1]) if swap else c
+                rows.append([poly[0], poly[1], poly[2], poly[3], 0.0, 30.0, m, round(m + 0.1, 2), rng.randint(0, 999) / 64.0, flag])
+        path = os.path.join(tmp, f"f{k}.dat")
+        with open(path, "w") as fh:
+            for r in rows:
+                fh.write(" ".join(repr(float(v)) for v in r) + "\n")
+        f = fc.GriddedForecast.load_ascii(path, swap_latlon=swap)
+        bb = ["|".join(f"{frac(float(p[0]))}:{frac(float(p[1]))}" for p in poly.points) for poly in f.region.polygons]
+        r = ";".join([",".join(bb) or "-", flist(float(v) for v in f.region.poly_mask), flist(float(v) for v in f.magnitudes),
+                      flist(float(v) for v in f.data.ravel())])
+        exp.append((dict(rows=rows[:4], swap=swap), r))
+        drv.ask(f"src_load_ascii {int(swap)} {_rows_txt(rows)}")
+        os.unlink(path)
+    os.rmdir(tmp)
+    out = drv.run()
+    return sum(1 for _ in exp), [(c, r[:120], o[:120]) for (c, r), o in zip(exp, out) if r != o]
+
+
+def tie_scale_to_test_date(rng, n):
+    from csep.core import forecasts as fc
+    drv, exp = Driver(), []
+    for _ in range(n):
+        st = rng.randint(_us_of(datetime.datetime(1950, 1, 1)), _us_of(datetime.datetime(2090, 1, 1)))
+        en = st + rng.choice([rng.randint(1, 40) * 86400 * 10 ** 6, rng.randint(10 ** 6, 4 * 10 ** 14)])
+        t = rng.choice([rng.randint(st - 10 ** 12, en + 10 ** 12), st, en, st + 1, en - 1, rng.randint(st, en)])
+        mk = lambda us: EPOCH + datetime.timedelta(microseconds=us)
+        o = _Obj(start_time=mk(st), end_time=mk(en), scale=lambda v: ("scaled", v))
+        r = fc.GriddedForecast.scale_to_test_date(o, mk(t))
+        exp.append(((t, en, st), "none" if r is o else frac(float(r[1]))))
+        drv.ask(f"src_scale_to_test_date {t} {en} {st}")
+    out = drv.run()
+    return len(exp), [(c, r, o) for (c, r), o in zip(exp, out) if r != o]
+
+
 TIES = {
+    "zmap_record": tie_zmap_record,
+    "horus_record": tie_horus_record,
+    "reader_parse_datetime": tie_reader_parse_datetime,
+    "parse_string_format": tie_parse_string_format,
+    "strptime_to_utc_datetime": tie_strptime_to_utc_datetime,
+    "strptime_to_utc_epoch": tie_strptime_to_utc_epoch,
+    "millis_to_days": tie_millis_to_days,
+    "days_to_millis_f": tie_days_to_millis_f,
+    "days_to_millis_i": tie_days_to_millis_i,
+    "timedelta_from_years": tie_timedelta_from_years,
+    "decimal_year_to_utc_datetime": tie_decimal_year_to_utc_datetime,
+    "decimal_year_to_utc_epoch": tie_decimal_year_to_utc_epoch,
+    "gds_data": tie_gds_data,
+    "gds_sum": tie_gds_sum,
+    "gds_scale": tie_gds_scale,
+    "mgds_spatial_counts": tie_mgds_spatial_counts,
+    "mgds_magnitude_counts": tie_mgds_magnitude_counts,
+    "get_magnitude_index": tie_get_magnitude_index,
+    "get_rates": tie_get_rates,
+    "get_rates_data": tie_get_rates_data,
+    "scale_to_test_date": tie_scale_to_test_date,
+    "target_event_rates": tie_target_event_rates,
+    "load_ascii": tie_load_ascii,
     "w_test_inputs": tie_w_test_inputs,
     "binary_spatial_likelihood": tie_binary_spatial_likelihood,
     "poisson_spatial_likelihood": tie_poisson_spatial_likelihood,
